@@ -159,7 +159,7 @@ fn small_script(n: usize, r: &mut Rng, with_oob: bool) -> Vec<Step> {
             s.push(Step::Roll(y, op));
         }
     }
-    for _ in 0..3 {
+    for _ in 0..2 {
         s.push(Step::Upd(r.below(n as u64) as u32, rand_val(r)));
         for y in 0..n32 {
             for op in OPS {
@@ -730,7 +730,7 @@ fn main() {
     if std::env::var("C28_LOUD").is_err() {
         quiet_panics();
     }
-    let mut out = Out::new(&args, "From Verif Require Import Hierarchy.", "Hierarchy.case", "Hierarchy.check_case", if args.thorough { 400 } else { 120 });
+    let mut out = Out::new(&args, "From Verif Require Import Hierarchy.", "Hierarchy.case", "Hierarchy.check_case", if args.thorough { 400 } else { 100 });
     out.rule = "exhaustive: every labelled DAG on <=4 nodes (thorough: <=5) under auto / forced chain / forced near-tree / \
                 forced nested-set, all (x,y) subsumes, all descendants, counts, all LCAs, all roll-ups (sum/count/min/max) \
                 before and after update_measure; random trees, near-trees and layered low-width DAGs up to 60 (thorough 400) \
@@ -759,7 +759,7 @@ fn main() {
             if r.chance(1, 2) {
                 edges.reverse();
             }
-            let forced_list: Vec<u8> = if n == 5 { vec![0, 2 + (c % 2) as u8] } else { vec![0, 1, 2, 3] };
+            let forced_list: Vec<u8> = if n == 5 { vec![0, 2 + (c % 2) as u8] } else if c % 4 == 0 { vec![0, 1, 2, 3] } else { vec![0, 2, 3] };
             for f in forced_list {
                 let script = small_script(n, &mut r, c % 16 == 0);
                 run_direct(&mut out, n, &edges, f, &script, "exh", seed, c % 8 == 0);
@@ -768,7 +768,7 @@ fn main() {
     }
     // 2. five nodes (quick tier: random sample, relabelled)
     if !args.thorough {
-        for k in 0..260u64 {
+        for k in 0..150u64 {
             let mut r = Rng::for_case(seed ^ 0x55, k);
             let pairs: Vec<(u32, u32)> = (0..5u32).flat_map(|a| (0..a).map(move |b| (a, b))).collect();
             let edges: Vec<(u32, u32)> = pairs.into_iter().filter(|_| r.chance(2, 5)).collect();
@@ -779,7 +779,7 @@ fn main() {
         }
     }
     // 3. random larger posets
-    let nbig = if args.thorough { 2400 } else { 300 };
+    let nbig = if args.thorough { 2400 } else { 200 };
     for k in 0..nbig {
         let mut r = Rng::for_case(seed ^ 0xB16, k);
         let hi = if args.thorough && k % 8 == 0 { 400 } else { 60 };
@@ -825,7 +825,7 @@ fn main() {
         run_direct(&mut out, n, &edges, f, &script, shape, seed, k % 3 == 0);
     }
     // 4. manager histories
-    let nm = if args.thorough { 1500 } else { 200 };
+    let nm = if args.thorough { 1500 } else { 150 };
     for k in 0..nm {
         run_mgr(&mut out, seed, k, args.thorough);
     }
